@@ -949,7 +949,9 @@ class FunctionPlugin(PrimitivePlugin):
         handled_names.update(static_params.keys())
         literal_map = getattr(ctx, "_call_input_param_literals", None)
         if isinstance(literal_map, dict):
-            for pname in call_param_names:
+            # Sorted: iterating the set made the order of the appended graph and
+            # function inputs depend on PYTHONHASHSEED.
+            for pname in sorted(call_param_names):
                 if pname in handled_names:
                     continue
                 if pname not in literal_map:
